@@ -133,18 +133,27 @@ pub fn abs_pos<R: Read>(rd: &H263Reader<R>, delivered: &std::rc::Rc<std::cell::R
 
 pub struct Dec {
     pub st: H263State,
+    /// Bytes the source hands out per read call when a picture is decoded from its own reader
+    /// (`usize::MAX`: a plain slice).
+    pub chunk: usize,
 }
 
 impl Dec {
     pub fn new(sorenson: bool, scal: bool) -> Dec {
-        Dec { st: H263State::new(options(sorenson, scal)) }
+        Dec { st: H263State::new(options(sorenson, scal)), chunk: usize::MAX }
     }
     /// Decode one picture supplied in its own reader.
     pub fn decode(&mut self, bytes: &[u8]) -> Outcome {
         let st = &mut self.st;
+        let chunk = self.chunk;
         outcome_of(catch(|| {
-            let mut rd = H263Reader::from_source(bytes);
-            st.decode_next_picture(&mut rd)
+            if chunk == usize::MAX {
+                let mut rd = H263Reader::from_source(bytes);
+                st.decode_next_picture(&mut rd)
+            } else {
+                let mut rd = H263Reader::from_source(ChunkRead { data: bytes, pos: 0, chunk });
+                st.decode_next_picture(&mut rd)
+            }
         }))
     }
     pub fn decode_with<R: Read>(&mut self, rd: &mut H263Reader<R>) -> Outcome {
